@@ -332,8 +332,10 @@ struct C18 : Property
 	void run(const Plan &p, RunCtx &ctx) override
 	{
 		int workload = (int)p.c("workload", 1);
-		if (workload == 3 && process_dirty)
+		if (workload == 3 && (process_dirty || !getenv("JSIM_EMIT_COV")))
 		{
+			// (always in a child: a seed-race run executed directly would leave ITS winner's seed in this worker process, and the
+			//  event logs of later runs depend on the seed value through the number of probe steps in the hash tables)
 			// the seed can be set once per process: run this plan in a virgin process and adopt what it observed
 			Outcome o;
 			if (!execute_plan_fresh_process(*this, p, o))
@@ -341,6 +343,17 @@ struct C18 : Property
 			adopt_outcome(ctx, o);
 			ctx.check();
 			return;
+		}
+		if (workload != 3 && !process_dirty)
+		{
+			// draw the process-wide hash seed BEFORE the simulated part, so that the event log of this run does not depend on
+			// whether an earlier run of this process already drew it (the draw adds yield points and atomics)
+			struct json_object *prime = LIB(json_object_new_object());
+			if (prime)
+			{
+				LIB(json_object_object_add(prime, "prime", nullptr));
+				LIBV(json_object_put(prime));
+			}
 		}
 		process_dirty = true;
 		Shared s;
